@@ -44,7 +44,7 @@ PROPS = {
             {"lane": "robust", "quick": 60, "thorough": 400, "pubwork": True},   # resource limits: Unpack under a low descriptor limit keeps every entry
             {"lane": "pack", "quick": 2500, "thorough": 60000},
             {"lane": "unpack", "quick": 1200, "thorough": 20000},
-            {"lane": "pack-spelling", "quick": 40, "thorough": 1000},   # a reused Packer still reproduces the tree
+            {"lane": "pack-spelling", "quick": 40, "thorough": 400},   # a reused Packer still reproduces the tree
         ],
         "trusted_base": [STDLIB, FSMODEL, "tar.Writer rounds ModTime to the nearest second under FormatUnknown (modelled as roundSec); PAX/USTAR encodings of long and non-ASCII names are exercised but not modelled below the entry level"],
         "assumptions": ["trees of regular files, directories and relative links that stay inside the tree without re-entering it by its own name (F37); special files are skipped; the round-trip oracle is applied without ignore rules and without dereferencing"],
@@ -53,7 +53,7 @@ PROPS = {
     "C05": {
         "lanes": [
             {"lane": "pack", "quick": 2500, "thorough": 60000},
-            {"lane": "pack-spelling", "quick": 60, "thorough": 1500},   # one Packer reused for two roots
+            {"lane": "pack-spelling", "quick": 60, "thorough": 500},   # one Packer reused for two roots
         ],
         "trusted_base": [STDLIB, FSMODEL],
         "assumptions": ["open findings F13, F14 (links inside / nested dereferenced directories) and F37 (a link re-entering the source directory through its own name) are reported as KNOWN-FINDING; the 'Unpack accepts Pack's output' oracle is applied without allow-lists"],
@@ -61,7 +61,7 @@ PROPS = {
     },
     "C16": {
         "lanes": [
-            {"lane": "pack-spelling", "quick": 120, "thorough": 3000},
+            {"lane": "pack-spelling", "quick": 120, "thorough": 1000},   # (each tree: ~20 spellings, histories and fresh-process children; 3 seeds in the thorough tier)
             {"lane": "ignore", "quick": 1500, "thorough": 30000},
             {"lane": "pack-spelling", "thorough": 60, "race": True},
         ],
@@ -72,7 +72,7 @@ PROPS = {
     "C20": {
         "lanes": [
             {"lane": "pack", "quick": 2500, "thorough": 60000},
-            {"lane": "pack-spelling", "quick": 40, "thorough": 1000},   # Packer reuse after a failed Pack
+            {"lane": "pack-spelling", "quick": 40, "thorough": 400},   # Packer reuse after a failed Pack
             {"lane": "pack-faults", "quick": 6, "thorough": 40},   # a Meta is only returned for a slug that was written in full
         ],
         "trusted_base": [STDLIB, FSMODEL],
